@@ -253,6 +253,7 @@ func ConstBool(v ssa.Value) (bool, bool) {
 // CallResult describes v as "result #Index of a call with key Key"
 // (Index -1: the single result).
 func CallResult(v ssa.Value) (call *ssa.Call, index int, ok bool) {
+	v = ResolveLocalLoad(v)
 	switch x := v.(type) {
 	case *ssa.Call:
 		return x, -1, true
@@ -521,4 +522,66 @@ func (p *Prog) ModFnsIn(pkgs ...string) (out []*ssa.Function) {
 func IsNextPkg(fn *ssa.Function) bool {
 	pk := PkgOf(fn)
 	return strings.HasPrefix(pk, "next/") || pk == "next" || strings.HasPrefix(pk, ModPath+"/scripts")
+}
+
+// ResolveLocalLoad looks through a load of a local cell (an Alloc, e.g. a
+// named result spilled because a deferred closure captures it) when the
+// value stored last before the load, in the same basic block, is known.
+func ResolveLocalLoad(v ssa.Value) ssa.Value {
+	for i := 0; i < 4; i++ {
+		u, ok := v.(*ssa.UnOp)
+		if !ok || u.Op != token.MUL {
+			return v
+		}
+		if _, isAlloc := u.X.(*ssa.Alloc); !isAlloc {
+			return v
+		}
+		b := u.Block()
+		var last ssa.Value
+		for _, in := range b.Instrs {
+			if in == ssa.Instruction(u) {
+				break
+			}
+			switch y := in.(type) {
+			case *ssa.Store:
+				if y.Addr == u.X {
+					last = y.Val
+				}
+			case ssa.CallInstruction:
+				// a call may write the cell through a captured reference
+				if _, isDefer := in.(*ssa.Defer); !isDefer && last != nil && cellEscapes(u.X.(*ssa.Alloc)) {
+					if cv, ok := in.(ssa.Value); !ok || !dependsOn(last, cv) {
+						last = nil
+					}
+				}
+			}
+		}
+		if last == nil {
+			return v
+		}
+		v = last
+	}
+	return v
+}
+
+func dependsOn(v, on ssa.Value) bool {
+	if v == on {
+		return true
+	}
+	if e, ok := v.(*ssa.Extract); ok {
+		return e.Tuple == on
+	}
+	return false
+}
+
+// cellEscapes reports whether the address of a is captured by a closure or
+// passed to a call.
+func cellEscapes(a *ssa.Alloc) bool {
+	for _, u := range Users(a) {
+		switch u.(type) {
+		case *ssa.MakeClosure, ssa.CallInstruction:
+			return true
+		}
+	}
+	return false
 }
